@@ -298,4 +298,15 @@ Proof.
   - exact (source_octets_bound cap rate Hr evs z1 z2 t1 t2 HW HT H1 H2 HS).
 Qed.
 
+(* with the clock in range and both timestamps in the past the limiter never aborts, and the
+   timestamps stay in the past (so this holds along every history) *)
+Lemma limiter_never_aborts : forall cap rate, 0 < rate ->
+  forall z1 z2 t n, window cap rate <= t -> t < pow2 32 -> z1 <= t -> z2 <= t ->
+  exists b z1' z2', lim_check cap rate (z1, z2) t n = Ok (b, (z1', z2')) /\ z1' <= t /\ z2' <= t.
+Proof.
+  intros cap rate Hr z1 z2 t n HW HT H1 H2.
+  destruct (lim_check_pot cap rate Hr z1 z2 t n HW HT H1 H2) as (b & y1 & y2 & E & A & B & _).
+  exists b, y1, y2. auto.
+Qed.
+
 Transparent pow2.
